@@ -420,8 +420,13 @@ func runC06(c *Ctx) {
 			case "Write", "Data":
 				// header carries u32 Length, the payload is Data
 				encC = append(encC, wtok{"bytes", "Data", false})
-			case "Open", "Setstat", "Fsetstat":
+			case "Open", "Setstat", "Fsetstat", "Mkdir":
 				// header ends with the attribute flags word, the payload holds the attributes by flags
+				// (MKDIR used to send only the flags word; a flags word that announces fields which are not sent
+				// is a malformed ATTRS block, which the decoders refuse)
+				if kind == "Mkdir" && len(encC) > 0 && encC[len(encC)-1].Prim != "attrs" {
+					break
+				}
 				if len(encC) > 0 && encC[len(encC)-1].Prim == "attrs" {
 					encC = encC[:len(encC)-1]
 				}
@@ -430,10 +435,6 @@ func runC06(c *Ctx) {
 				}
 				if len(encC) > 0 && encC[len(encC)-1].Prim == "u32" && encC[len(encC)-1].Field == "Flags" {
 					encC[len(encC)-1] = wtok{"attrs", "", false}
-				}
-			case "Mkdir":
-				if len(encC) > 0 && encC[len(encC)-1].Field == "Flags" {
-					encC[len(encC)-1] = wtok{"attrs", "", false} // documented asymmetry: only the flags word of ATTRS
 				}
 			case "Name":
 				// entries are marshalled by sshFxpNameAttr.MarshalBinary
